@@ -146,6 +146,16 @@ def run_check(check: str, tier: str, seed: int, replay: str | None = None) -> in
             skips += d["skips"]
             nontrivial += d["nontrivial"]
 
+        # optional extra workload run by the parent (e.g. the repository's own tests under the harness contracts)
+        pe = getattr(mod, "parent_extra", None)
+        if pe is not None:
+            try:
+                efails, ecounters = pe(tier)
+                failures.extend(efails)
+                common.merge_counters(counters, ecounters)
+            except Exception as e:  # the extra workload could not run: not a verdict about the property
+                inconclusive.append(f"parent-extra:{type(e).__name__}:{e}"[:300])
+
         # classify
         hits = Counter()
         violations = []
